@@ -1257,7 +1257,7 @@ def jobs(tier):
     sj = [('TSDQD', ['sync'], 'listener', 0), ('TSRDQD', ['async', 'yield'], 'listener', 0), ('TSDQD', ['yield'], 'task', 0),
           ('TSDQD', ['yield', 'sync'], None, 0)]
     if not q:
-        sj += [('TSRDXDQD', ['yield'], 'task', 1), ('TUDQD', ['sync', 'yield'], 'listener', 0), ('ILDQD', ['yield'], 'task', 0),
+        sj += [('TSRDQ', ['yield'], 'task', 1), ('TUDQD', ['sync', 'yield'], 'listener', 0), ('ILDQD', ['yield'], 'task', 0),
                ('TSDQD', ['yield', 'yield'], 'task', 0), ('TSRDQD', ['yield'], 'listener', 1), ('ILDQD', ['async'], 'listener', 1),
                ('TSRUDQ', ['yield', 'async'], None, 0)]
     for ops, ls, how, nth in sj:
